@@ -231,7 +231,7 @@ func (x *X) afterWaitOK(n ast.Node) bool {
 		return false
 	}
 	// must be in the wrapper's own straight-line code or nested under it, not inside a closure defined earlier
-	if f := x.Par.EnclosingFunc(n); f != ast.Node(x.In.Wrapper) {
+	if f := x.Par.EnclosingFunc(n); f != ast.Node(x.W) {
 		return false
 	}
 	return true
@@ -267,7 +267,7 @@ func (rc *ruleCtx) hbCover() {
 	}
 	for _, a := range x.accesses(x.Body) {
 		// only variables declared inside the wrapper, and not inside the closure that accesses them
-		if !declaredIn(a.l.obj, x.In.Wrapper) {
+		if !declaredIn(a.l.obj, x.W) {
 			continue
 		}
 		j := jobOf(a.at)
@@ -375,10 +375,10 @@ func (rc *ruleCtx) hbCover() {
 
 // insideDeferredLit: n lies in a func literal that is deferred at wrapper level (runs at wrapper return).
 func (x *X) insideDeferredLit(n ast.Node) bool {
-	for p := x.Par[n]; p != nil && p != ast.Node(x.In.Wrapper); p = x.Par[p] {
+	for p := x.Par[n]; p != nil && p != ast.Node(x.W); p = x.Par[p] {
 		if fl, ok := p.(*ast.FuncLit); ok {
 			if c, ok := x.Par[fl].(*ast.CallExpr); ok {
-				if _, ok := x.Par[c].(*ast.DeferStmt); ok && x.Par.EnclosingFunc(c) == ast.Node(x.In.Wrapper) {
+				if _, ok := x.Par[c].(*ast.DeferStmt); ok && x.Par.EnclosingFunc(c) == ast.Node(x.W) {
 					return true
 				}
 			}
@@ -414,7 +414,7 @@ func (rc *ruleCtx) wiring() {
 			if i == 0 && o == j.CtxObj {
 				continue
 			}
-			if !declaredIn(o, x.In.Wrapper) || declaredIn(o, j.Lit) || x.Par.EnclosingFunc(x.declIdent(o)) != ast.Node(x.In.Wrapper) {
+			if !declaredIn(o, x.W) || declaredIn(o, j.Lit) || x.Par.EnclosingFunc(x.declIdent(o)) != ast.Node(x.W) {
 				bad = fmt.Sprintf("argument %d (%s) is not a directive-level value variable", i, o.Name())
 				break
 			}
@@ -438,7 +438,7 @@ func (rc *ruleCtx) wiring() {
 					if o == j.ErrObj && i == len(as.Lhs)-1 {
 						continue
 					}
-					if !declaredIn(o, x.In.Wrapper) || declaredIn(o, j.Lit) {
+					if !declaredIn(o, x.W) || declaredIn(o, j.Lit) {
 						bad = fmt.Sprintf("result %d goes to %s, which is not a directive-level value variable", i, o.Name())
 					}
 				}
